@@ -861,11 +861,13 @@ fn near_falling_edge(p: u32, bit: u32) -> bool {
   (p + 2) % m <= 4
 }
 
-/// Stage deadlines only bound the run on a loaded machine (sum: thorough 295 s, quick 22 s);
+/// Stage deadlines only bound the run on a loaded machine (sum: thorough 20 min, quick 11 min);
 /// on 16 idle cores every stage finishes well inside its deadline.  A stage that hits it is
 /// reported as capped and the run is not called exhaustive.
 fn secs(thorough: bool, t: u64, q: u64) -> std::time::Duration {
-  std::time::Duration::from_secs(if thorough { t } else { q })
+  // (the figures at the call sites are the original budgets; they proved too tight when all
+  // twenty checks run side by side and are scaled here)
+  std::time::Duration::from_secs(if thorough { 4 * t } else { 30 * q })
 }
 
 fn gcd(a: usize, b: usize) -> usize {
